@@ -164,6 +164,35 @@ def decide(ctx, negated, extra=()):
         ctx.solver.pop()
 
 
+def decide_nra(ctx, negated, extra=(), budget_s=40):
+    """like decide(), for non-linear real obligations: fresh solver per obligation and a small portfolio
+    (default solver, then the nlsat tactic, then a reseeded default), because z3's incremental NRA is erratic"""
+    ctx._sync()
+    base = list(ctx.pc) + list(ctx.side) + list(extra) + [negated]
+    attempts = [("default", 0, 0.25), ("nlsat", 0, 0.45), ("default", 7, 0.3)]
+    for kind, seed, share in attempts:
+        if kind == "default":
+            s = z3.Solver()
+            if seed:
+                s.set("random_seed", seed)
+        else:
+            s = z3.Tactic("qfnra-nlsat").solver()
+        s.set("timeout", int(budget_s * share * 1000))
+        s.add(*base)
+        t0 = time.time()
+        try:
+            r = s.check()
+        except z3.Z3Exception:
+            r = z3.unknown
+        if ctx.tally is not None:
+            ctx.tally.count(str(r), time.time() - t0)
+        if r == z3.unsat:
+            return "holds", None
+        if r == z3.sat:
+            return "violated", s.model()
+    return "inconclusive", None
+
+
 def reachable(ctx, extra=()):
     ctx._sync()
     r = ctx.check(*extra)
